@@ -51,7 +51,7 @@ CHECKS = {
    note="When delays are injected, outputs are attributed to search threads by simulated thread id (a stalled old search may legitimately print late); when none is injected the reply is compared as the GUI sees it (every info line between go and bestmove). Sampling over session histories."),
  "C17": dict(level="fault_enumeration", design="5/C17",
    technique="deterministic simulation family S-A with input-stream faults: noise/whitespace/unknown-token injection compared metamorphically against the clean script, and end-of-input injected at every command boundary of each script (enumerated) plus sampled mid-line offsets",
-   text="For each generated timing-free script: a noisy twin must produce the same transcript and probed state; stdin is closed at every command boundary (exhaustive per script) and at sampled mid-line offsets and the process must end (exit event) rather than keep reading; quit must be followed by exit and no output; every isready gets exactly one readyok. Noise includes setoption lines for options the engine lacks and lines that are not valid UTF-8 (read_line -> Err(InvalidData)); the noisy script is also delivered pipelined (nothing waited for) with slowly starting search threads.",
+   text="For each generated timing-free script: a noisy twin must produce the same transcript and probed state; stdin is closed at every command boundary (exhaustive per script) and at sampled mid-line offsets and the process must end (exit event) rather than keep reading; quit must be followed by exit and no output; every isready gets exactly one readyok. Noise includes setoption lines for options the engine lacks and lines that are not valid UTF-8 (read_line -> Err(InvalidData)); the noisy script is also delivered pipelined (nothing waited for) with slowly starting search threads. Flood stage: uci, isready, 30 000 (thorough: also 120 000) blank lines resp. unknown lines, isready, quit, simulated in a child process of the harness under a wall-clock limit; a stack overflow of the engine's thread or a lifecycle violation is reported, anything else is inconclusive (DESIGN 13.12).",
    note="Exhaustive only over the EOF boundaries of the scripts drawn; scripts and noise placement are sampled. Noise does not begin with a known command word (except setoption for unknown options)."),
  "C07": dict(level="fault_enumeration", design="5/C07",
    technique="deterministic simulation family S-B: the real get_best_move under a scripted clock that expires at the k-th query, for every k of each sampled position (crash-point enumeration), compared with a reference run under an unlimited clock",
